@@ -108,6 +108,32 @@ var e2ErrorResponders = map[string]bool{
 	"client/rp.unauthorizedError": true,
 }
 
+// isErrResponder: the reviewed table, or - derived, so that private helpers may come and go - an in-module function
+// without results that takes the ResponseWriter together with an error value (error, *oidc.Error, StatusError):
+// its purpose is to answer with that error.
+func (e *e2) isErrResponder(name string, fn *types.Func) bool {
+	if e2ErrorResponders[name] {
+		return true
+	}
+	if fn == nil || fn.Pkg() == nil || !inModule(fn.Pkg().Path()) {
+		return false
+	}
+	sig, ok := fn.Type().(*types.Signature)
+	if !ok || sig.Results().Len() != 0 {
+		return false
+	}
+	hasW, hasErr := false, false
+	for i := 0; i < sig.Params().Len(); i++ {
+		t := sig.Params().At(i).Type()
+		if e.rwType != nil && types.Identical(t, e.rwType) {
+			hasW = true
+		} else if e.errType != nil && types.Implements(t, e.errType.Underlying().(*types.Interface)) && !types.IsInterface(t) || (e.errType != nil && types.Identical(t, e.errType)) {
+			hasErr = true
+		}
+	}
+	return hasW && hasErr
+}
+
 // out-of-module callees that take the ResponseWriter: effect on the response.
 var e2ExternalW = map[string]rcount{
 	"net/http.Error":          cC,
@@ -328,9 +354,9 @@ func (e *e2) classify(fi *FuncInfo, call *ast.CallExpr, ws map[*types.Var]bool) 
 		}
 		if mod {
 			if callee := e.byObj[fn.Origin()]; callee != nil && callee.Body != nil {
-				return e2effect{in: callee, name: name, errResp: e2ErrorResponders[name], signif: true}
+				return e2effect{in: callee, name: name, errResp: e.isErrResponder(name, fn), signif: true}
 			}
-			return e2effect{kind: cC, name: name, signif: true, errResp: e2ErrorResponders[name]}
+			return e2effect{kind: cC, name: name, signif: true, errResp: e.isErrResponder(name, fn)}
 		}
 		if k, ok := e2ExternalW[name]; ok {
 			return e2effect{kind: k, name: name, errResp: e2ErrorResponders[name], wwrite: k == cB}
@@ -402,7 +428,7 @@ func (e *e2) summary(fi *FuncInfo) *e2summary {
 	e.inprog[fi] = true
 	res := e.analyse(fi)
 	delete(e.inprog, fi)
-	s := &e2summary{pairs: res.exits, errRs: e2ErrorResponders[fi.Name]}
+	s := &e2summary{pairs: res.exits, errRs: e2ErrorResponders[fi.Name] || (fi.Obj != nil && e.isErrResponder(fi.Name, fi.Obj))}
 	e.summ[fi] = s
 	return s
 }
@@ -909,6 +935,9 @@ func RunE2(c *Ctx) {
 			continue
 		}
 		if c.P.Fn(name) == nil {
+			if i := strings.LastIndex(name, "."); i >= 0 && !ast.IsExported(name[i+1:]) {
+				continue // private helper: may be merged or renamed; error responders are also derived from the signature
+			}
 			c.R.Fail("anchor-unresolved", name, "E2 error-responder table", "error responder "+name+" named in the E2 table no longer exists; re-point the table")
 		}
 	}
